@@ -219,6 +219,7 @@ func c13Stream(c *cur) string {
 	notes := []string{}
 	rdr := &schedReader{s: s}
 	var got, raws []string
+	var rawKept [][]byte // the slices as returned, looked at again after the whole stream was read
 	sawEOF := false
 	for i := 0; i < len(docs)+3; i++ {
 		var m map[string]interface{}
@@ -255,6 +256,13 @@ func c13Stream(c *cur) string {
 		}
 		got = append(got, enc(m))
 		raws = append(raws, string(rb))
+		rawKept = append(rawKept, rb)
+	}
+	for i, rb := range rawKept {
+		if string(rb) != raws[i] {
+			notes = append(notes, fmt.Sprintf("RAWKEPT Raw value %d changed while later documents were read", i))
+			break
+		}
 	}
 	if len(notes) == 0 {
 		if !sawEOF {
@@ -295,14 +303,39 @@ func c13Stream(c *cur) string {
 		eh := func(error) bool { return false }
 		hr := &schedReader{s: s}
 		var herr error
-		switch kind {
-		case "xml":
+		// Raw forms of the bulk handlers: the raw slices are kept as handed over and examined
+		// after the whole stream has been processed (the documentation suggests handing them to
+		// a goroutine)
+		var hraw [][]byte
+		var hrawThen []string
+		hRaw := func(m mxj.Map, rb []byte) bool {
+			hraw = append(hraw, rb)
+			hrawThen = append(hrawThen, string(rb))
+			return h(m)
+		}
+		ehRaw := func(error, []byte) bool { return false }
+		switch {
+		case kind == "xml" && raw:
+			herr = mxj.HandleXmlReaderRaw(hr, hRaw, ehRaw)
+		case kind == "xml":
 			herr = mxj.HandleXmlReader(hr, h, eh)
-		case "seq":
+		case kind == "seq":
 			// there is no bulk handler for the sequence decoder
 			return "ok | " + strings.Join(notes, "; ")
+		case raw:
+			herr = mxj.HandleJsonReaderRaw(hr, hRaw, ehRaw)
 		default:
 			herr = mxj.HandleJsonReader(hr, h, eh)
+		}
+		for i, rb := range hraw {
+			if string(rb) != hrawThen[i] {
+				notes = append(notes, fmt.Sprintf("RAWKEPT the Raw value handed to the map handler for document %d changed afterwards", i))
+				break
+			}
+			if i < len(docs) && !strings.Contains(stripJSONWs(hrawThen[i]), stripJSONWs(docs[i])) {
+				notes = append(notes, fmt.Sprintf("RAWKEPT the Raw value handed to the map handler for document %d does not contain the document", i))
+				break
+			}
 		}
 		exp := want
 		if stopAfter > 0 && stopAfter < len(want) {
